@@ -240,7 +240,7 @@ class BSL(ModelBased):
         """
         # estimate synthetic likelihood
         if not np.all(np.isfinite(self.simulated)):
-            loglikelihood = np.NINF
+            loglikelihood = -np.inf
         else:
             if self.is_misspec:
                 gamma = self.gamma_sampler_state['gamma']
